@@ -47,6 +47,22 @@ var tiers = map[string]map[string]tierCfg{
 	"C01": {"quick": {80000, 25, 20, 0, 1000}, "thorough": {2000000, 900, 30, 0, 3000}},
 }
 
+// expectedProbes: reach counters that must not stay at zero in a sweep; a probe stuck at zero
+// means the workload or the fault mix has to change (reported in the evidence, never a verdict).
+var expectedProbes = map[string][]string{
+	"C13": {"lock", "rlock", "access", "lock_blocked", "rlock_blocked", "history_ops"},
+	"C12": {"access", "ext_fault_fired", "ext_lookup_hit", "ext_lookup_miss", "ops", "scopes"},
+	"C02": {"cancel_delivered", "cancel_before_first_statement", "cancel_while_blocked_in_channel_op", "cancel_at_quiescence_with_several_blocked_tasks",
+		"cancel_with_script_goroutines", "main_returned_interrupted", "sleep", "spawn", "select", "ticks"},
+	"C16": {"spawn", "select", "sleep", "epilogue_checked", "items_delivered"},
+	"C14": {"concurrent_executions", "sequential_reruns", "lock", "rlock", "access"},
+	"C09": {"fault_fired_panic-string", "fault_fired_panic-error", "fault_fired_panic-value", "fault_fired_runtime-error", "fault_fired_error-result",
+		"passed_unspecified_point", "control_flow_left_a_try_body", "uncaught_error_expected", "host_calls"},
+	"C01": {"fault_fired_panic-string", "fault_fired_panic-error", "fault_fired_panic-value", "fault_fired_runtime-error", "fault_fired_error-result",
+		"fault_fired_nil-func", "fault_fired_close-chan", "fault_fired_cancel", "fault_fired_panic-typed-nil-error", "fault_fired_panic-nil",
+		"fault_with_script_goroutines", "ctx_mode_0", "ctx_mode_1", "ctx_mode_2", "spawn", "select"},
+}
+
 var raceProps = map[string]bool{"C13": true, "C14": true, "C16": true}
 
 type aggT struct {
@@ -963,6 +979,17 @@ func writeEvidence(prop, tier string, seed int64, sr *sweepResult, cfg tierCfg, 
 		"rewriter_report":               gen,
 		"components_real":               []string{"parser", "ast", "vm (all logic)", "env (all logic)", "core", "packages", "Go channels", "reflect"},
 		"components_stubbed":            []string{"context.Context (simrt.Ctx)", "env mutex type (simrt.RWMutex)", "goroutine spawn (simrt.Go)", "clock (testing/synctest fake clock)", "host functions bound by the workload", "env.ExternalLookup"},
+	}
+	var atZero []string
+	for _, k := range expectedProbes[prop] {
+		if sr.counters[k] == 0 {
+			atZero = append(atZero, k)
+		}
+	}
+	cov["probes_expected"] = expectedProbes[prop]
+	cov["probes_at_zero"] = atZero
+	if len(atZero) > 0 {
+		fmt.Fprintf(os.Stderr, "check: warning: reach probes at zero in this sweep: %v\n", atZero)
 	}
 	for k, v := range race {
 		cov[k] = v
